@@ -50,6 +50,11 @@ int libwifi_get_rsn_info(struct libwifi_rsn_info *info, const unsigned char *tag
     memcpy(&info->group_cipher_suite, data, sizeof(struct libwifi_cipher_suite));
     data += sizeof(struct libwifi_cipher_suite);
 
+    // Every field after the group cipher suite is optional: the element may end here
+    if (data == tag_end) {
+        return 0;
+    }
+
     // Bounds check and handle the RSN Pairwise Ciphers
     if (data > tag_end) {
         return -EINVAL;
@@ -80,6 +85,11 @@ int libwifi_get_rsn_info(struct libwifi_rsn_info *info, const unsigned char *tag
         data += sizeof(struct libwifi_cipher_suite);
     }
     data = (unsigned char *) list_end;
+
+    // The element may also end after the pairwise list
+    if (data == tag_end) {
+        return 0;
+    }
 
     // Bounds check and handle the RSN Authentication Key Management Suites
     if ((data + sizeof(suite_count)) > tag_end) {
@@ -347,6 +357,11 @@ int libwifi_get_wpa_info(struct libwifi_wpa_info *info, const unsigned char *tag
     memcpy(&info->multicast_cipher_suite, data, sizeof(struct libwifi_cipher_suite));
     data += sizeof(struct libwifi_cipher_suite);
 
+    // Every field after the multicast cipher suite is optional: the element may end here
+    if (data == tag_end) {
+        return 0;
+    }
+
     // Bounds check and handle the WPA Unicast Cipher Suites
     if (data > tag_end) {
         return -EINVAL;
@@ -377,6 +392,11 @@ int libwifi_get_wpa_info(struct libwifi_wpa_info *info, const unsigned char *tag
         data += sizeof(struct libwifi_cipher_suite);
     }
     data = (unsigned char *) list_end;
+
+    // The element may also end after the unicast list
+    if (data == tag_end) {
+        return 0;
+    }
 
     // Bounds check and handle the WPA Authentication Key Management Suites
     if ((data + sizeof(suite_count)) > tag_end) {
